@@ -255,7 +255,12 @@ func buildStack(layers []layerSpec, inner http.Handler, prelude bool) (http.Hand
 	h := inner
 	// one source for everybody: the loopback server may listen on 127.0.0.1 or, when that fails under port pressure, on
 	// [::1], and the request that uses up the rate limiter's token must count for the same source as the real one
-	extract := utils.ExtractorFunc(func(*http.Request) (string, int64, error) { return "client", 1, nil })
+	extract := utils.ExtractorFunc(func(r *http.Request) (string, int64, error) {
+		if s := r.Header.Get("X-Probe-Source"); s != "" { // the two requests of the in-flight probe are two clients
+			return s, 1, nil
+		}
+		return "client", 1, nil
+	})
 	for i := len(layers) - 1; i >= 0; i-- {
 		l := layers[i]
 		next := h
@@ -332,12 +337,25 @@ func buildStack(layers []layerSpec, inner http.Handler, prelude bool) (http.Hand
 		case 4:
 			sw := &switchHandler{}
 			sw.set(http.HandlerFunc(func(w http.ResponseWriter, r *http.Request) { w.WriteHeader(502) }))
-			cb, err := cbreaker.New(sw, "NetworkErrorRatio() > 0.5", cbreaker.FallbackDuration(time.Hour))
+			cbOpts := []cbreaker.Option{cbreaker.FallbackDuration(time.Hour)}
+			if l.sticky != 0 {
+				// the library's redirect fallback instead of its default response fallback: 302 to a maintenance page, with
+				// the path of the request appended
+				rf, err := cbreaker.NewRedirectFallback(cbreaker.Redirect{URL: redirectBase, PreservePath: true})
+				if err != nil {
+					return nil, err
+				}
+				cbOpts = append(cbOpts, cbreaker.Fallback(rf))
+			}
+			cb, err := cbreaker.New(sw, "NetworkErrorRatio() > 0.5", cbOpts...)
 			if err != nil {
 				return nil, err
 			}
 			if l.intervenes != 0 {
 				cb.ServeHTTP(httptest.NewRecorder(), httptest.NewRequest(http.MethodGet, "http://x/", nil))
+				// tripped now: two requests are answered by the fallback before the exchange is (each answer is about its own request)
+				cb.ServeHTTP(httptest.NewRecorder(), httptest.NewRequest(http.MethodGet, "http://x/warm/up", nil))
+				cb.ServeHTTP(httptest.NewRecorder(), httptest.NewRequest(http.MethodGet, "http://x/again", nil))
 			}
 			sw.set(next)
 			h = cb
@@ -408,6 +426,8 @@ func buildWithPrelude(layers []layerSpec, inner http.Handler, prelude bool) (htt
 	return top, nil
 }
 
+const redirectBase = "http://fallback.example/maintenance"
+
 type failingSink struct{}
 
 func (failingSink) Write(p []byte) (int, error) { return 0, fmt.Errorf("no space left on device") }
@@ -467,7 +487,7 @@ func recording(h http.Handler, flushes *int32, raw *int32) http.Handler {
 
 type result struct {
 	hijacked, status, bodyLen, bodyHash, nh, hh, cookie int64
-	err                                                 string
+	err, location                                       string
 }
 
 func hashBytes(b []byte) int64 {
@@ -487,10 +507,12 @@ func exchange(h http.Handler, proto int64, badCookies bool) result {
 		srv.StartTLS()
 		client = srv.Client()
 		client.Timeout = 10 * time.Second
+		client.CheckRedirect = func(*http.Request, []*http.Request) error { return http.ErrUseLastResponse }
 	} else {
 		srv = httptest.NewServer(h)
 		client = &http.Client{Transport: &http.Transport{DisableKeepAlives: true, Proxy: nil,
-			DialContext: (&net.Dialer{Timeout: 5 * time.Second}).DialContext}, Timeout: 10 * time.Second}
+			DialContext: (&net.Dialer{Timeout: 5 * time.Second}).DialContext}, Timeout: 10 * time.Second,
+			CheckRedirect: func(*http.Request, []*http.Request) error { return http.ErrUseLastResponse }}
 	}
 	defer srv.Close()
 	req, _ := http.NewRequest(http.MethodPost, srv.URL+"/some/path?q=1", bytes.NewReader([]byte("0123456789")))
@@ -530,6 +552,7 @@ func exchange(h http.Handler, proto int64, badCookies bool) result {
 		}
 	}
 	r.cookie = int64(len(resp.Header["Set-Cookie"]))
+	r.location = resp.Header.Get("Location")
 	return r
 }
 
@@ -694,8 +717,22 @@ func (c *stackComp) Run(h *hlib.History) ([]hlib.Mon, bool) {
 			if inv != 0 {
 				add("layer %d (%s) intervenes but the handler was invoked %d time(s)", first, kindNames[layers[first].kind], inv)
 			}
-			if r.status != documented[layers[first].kind] {
-				add("layer %d (%s) intervenes: status %d, documented %d", first, kindNames[layers[first].kind], r.status, documented[layers[first].kind])
+			want := documented[layers[first].kind]
+			if layers[first].kind == 4 && layers[first].sticky != 0 {
+				want = http.StatusFound
+				hlib.Count("interventions_by_redirect_fallback", 1)
+				loc := redirectBase + "/some/path"
+				for _, l := range layers[:first] {
+					if l.kind == 5 || l.kind == 6 { // a balancer in front has pointed the request at the backend: that URL's path
+						loc = redirectBase + backendURL.Path
+					}
+				}
+				if r.location != loc {
+					add("layer %d (breaker with the redirect fallback, path preserved) intervenes for the third time: Location %q, documented %q", first, r.location, loc)
+				}
+			}
+			if r.status != want {
+				add("layer %d (%s) intervenes: status %d, documented %d", first, kindNames[layers[first].kind], r.status, want)
 			}
 			continue
 		}
@@ -729,8 +766,75 @@ func (c *stackComp) Run(h *hlib.History) ([]hlib.Mon, bool) {
 		if r.hijacked == 0 && r.cookie != nSticky+r0.cookie {
 			add("%d Set-Cookie lines reached the client; the handler sent %d of its own and %d sticky balancers are in the stack", r.cookie, r0.cookie, nSticky)
 		}
+		if !prelude {
+			if msg := inFlightProbe(layers); msg != "" {
+				add("%s", msg)
+			}
+		}
 	}
 	return mons, true
+}
+
+// inFlightProbe: a passive stack has no reason to hold a request back because another one (of another client) is still
+// being served: on a second instance of the same stack, the handler of request A waits until request B has been handed
+// to the handler as well (long polls, event streams and handlers that meet each other all rely on it).
+func inFlightProbe(layers []layerSpec) string {
+	entered := make(chan string, 2)
+	release := make(chan struct{})
+	top, err := buildStack(layers, http.HandlerFunc(func(w http.ResponseWriter, r *http.Request) {
+		entered <- r.Header.Get("X-Probe-Source")
+		<-release
+		w.WriteHeader(http.StatusNoContent)
+	}), false)
+	if err != nil {
+		return ""
+	}
+	hlib.Count("in_flight_probes", 1)
+	done := make(chan struct{}, 2)
+	send := func(src string) {
+		req := httptest.NewRequest(http.MethodGet, "http://x/some/path", nil)
+		req.Header.Set("X-Probe-Source", src)
+		go func() {
+			defer func() { _ = recover(); done <- struct{}{} }()
+			top.ServeHTTP(httptest.NewRecorder(), req)
+		}()
+	}
+	send("probe-a")
+	select {
+	case <-entered:
+	case <-time.After(5 * time.Second):
+		close(release)
+		return "in-flight probe: the first request of a passive stack was not handed to the handler within 5 s"
+	}
+	send("probe-b")
+	held := false
+	select {
+	case <-entered:
+	case <-done: // answered without the handler: not this probe's business
+		close(release)
+		<-done
+		return ""
+	case <-time.After(1500 * time.Millisecond):
+		held = true
+	}
+	close(release)
+	msg := ""
+	if held {
+		select {
+		case <-entered:
+			msg = "in-flight probe: while the handler was serving one request, the request of another client was held back (not handed to the handler within 1.5 s) and reached the handler only once the first had finished: the stack serialises requests"
+		case <-time.After(3 * time.Second):
+			msg = "in-flight probe: while the handler was serving one request, the request of another client was neither handed to the handler nor answered, even after the first had finished"
+		}
+	}
+	for k := 0; k < 2; k++ {
+		select {
+		case <-done:
+		case <-time.After(5 * time.Second):
+			return msg + " (in-flight probe: a request did not return within 5 s)"
+		}
+	}
+	return msg
 }
 
 func resourceTrouble(e string) bool {
@@ -744,6 +848,9 @@ func describeLayers(layers []layerSpec) string {
 		x := kindNames[l.kind]
 		if l.sticky != 0 && (l.kind == 5 || l.kind == 6) {
 			x += "+sticky"
+		}
+		if l.sticky != 0 && l.kind == 4 {
+			x += "+redirect-fallback"
 		}
 		if l.sticky != 0 && l.kind == 1 {
 			x += "(failing sink)"
